@@ -50,7 +50,9 @@ def cases(draw, nmax):
     return dict(D=draw(logu(1e-6, 1e3)), Dz=draw(st.one_of(st.just(0.0), logu(1e-6, 1e3))),
                 dt=draw(st.sampled_from([1, 60, 600, 3600, 86400])), dx=draw(logu(10, 2e4)),
                 ratio=draw(st.sampled_from([1.0, 0.5, 3.0])), steps=draw(st.integers(1, 50)),
-                n=draw(st.sampled_from([10000, 10000, nmax])), seed=draw(st.integers(0, 2**31 - 1)))
+                n=draw(st.sampled_from([10000, 10000, nmax])), seed=draw(st.integers(0, 2**31 - 1)),
+                # the cloud comes out of a restart file with single-precision positions (ladim.warm_start)
+                warm=draw(st.sampled_from([False, False, True])))
 
 
 def make(case, D, Dz, dx, seed, n, u=0.0):
@@ -61,7 +63,26 @@ def make(case, D, Dz, dx, seed, n, u=0.0):
     sig_tot = math.sqrt(2 * max(Dz, 1e-30) * case["dt"] * case["steps"])
     h = 40 * sig_tot + 1.0
     state = State()
-    state.append(X=np.full(n, 250.0), Y=np.full(n, 250.0), Z=np.full(n, h / 2))
+    if case.get("warm"):
+        from netCDF4 import Dataset
+
+        from ladim.warm_start import warm_start
+
+        with e2e.workdir() as d:
+            with Dataset(d / "restart.nc", "w") as nc:
+                nc.createDimension("time", None)
+                nc.createDimension("particle_instance", None)
+                tv = nc.createVariable("time", "f8", ("time",))
+                tv.units = "seconds since 2000-01-01T00:00:00"
+                tv[:] = [0.0]
+                nc.createVariable("particle_count", "i4", ("time",))[:] = [n]
+                nc.createVariable("pid", "i4", ("particle_instance",))[:] = np.arange(n)
+                for nm, val in (("X", 250.0), ("Y", 250.0), ("Z", h / 2)):
+                    nc.createVariable(nm, "f4", ("particle_instance",))[:] = np.full(n, val, "f4")
+                nc.particles_released = n
+            warm_start(str(d / "restart.nc"), [], state)
+    else:
+        state.append(X=np.full(n, 250.0), Y=np.full(n, 250.0), Z=np.full(n, h / 2))
 
     class Timer:
         pass
@@ -105,6 +126,8 @@ def oracle(case) -> core.CaseResult:
             prevX, prevY, prevZ = np.array(state.X), np.array(state.Y), np.array(state.Z)
     dX, dY, dZ = np.array(state.X) - X0, np.array(state.Y) - Y0, np.array(state.Z) - Z0
     res.cls("with_Dz" if Dz > 0 else "horizontal_only")
+    if case.get("warm"):
+        res.cls("cloud_from_single_precision_restart_file")
     res.nontrivial = True
     band_var = SIG * math.sqrt(2.0 / (n - 1))
     band_cor = SIG / math.sqrt(n)
